@@ -86,6 +86,14 @@ def gen(rng, tier):
         add("cli.hash_td %s %d" % (hx(tdgen.dumps(doc)), rng.randrange(2)), ("hash_td",))
     add("cli.hash_td %s 0" % hx(c08.MAIL), ("hash_td", "fixture"))
     add("cli.hash_td %s 1" % hx(c08.MAIL), ("hash_td", "fixture"))
+    # large documents through both input channels (a reader that caps or chunks its input shows here)
+    for nbytes in ((600000, 1100000) if tier == "quick" else (600000, 1100000, 2500000)):
+        for vf in (False, True):
+            j = '{"nonce":1,"gasPrice":2,"gas":3,"value":4,"chainId":5,"to":null,"data":"0x' + ("%02x" % rng.randrange(256)) * nbytes + '"}'
+            add("cli.hash_tx %s none" % hx(j), ("hash_tx", "large-input"), {"via_file": vf})
+            d = {"types": {"EIP712Domain": [{"name": "name", "type": "string"}], "M": [{"name": "s", "type": "string"}, {"name": "b", "type": "bytes"}]}, "primaryType": "M",
+                 "domain": {"name": "x"}, "message": {"s": "y" * nbytes, "b": "0x" + "cd" * (nbytes // 2)}}
+            add("cli.hash_td %s 0" % hx(json.dumps(d)), ("hash_td", "large-input"), {"via_file": vf})
     # sign commands, with the matching hash command and the C15 pipeline
     for _ in range(n):
         mn, pw, sel = rand_acct(rng)
